@@ -170,12 +170,18 @@ def rec_scene(seed):
         pair('independent_of_property_read_order', canon_rows(rows_of(c_a, has_err, has_bkg)), canon_rows(rows_of(c_b, has_err, has_bkg)))
         # detection catalog: moment-based properties come from the detection image, fluxes from the measurement image
         sc3 = dict(sc); sc3['data'] = sc['data'] + 1; sc3['conv'] = sc['conv'] * 2 + 1
+        if seed % 2:      # the detection image has its own bad pixels (band-specific masks): none of them may leak into the measurement
+            hh, ww = sc['data'].shape
+            inseg = [[r, c] for r in range(hh) for c in range(ww) if sc['segm'][r, c] > 0]
+            rng.shuffle(inseg)
+            sc3['mask'] = [p for p in inseg[:2] if p not in sc['mask']]
+            sc3['nonfinite'] = [p for p in inseg[2:3] if p not in sc['nonfinite']]
         det = catalog(sc3, has_err, has_bkg, lbw=lbw)
         cat_d = catalog(sc, has_err, has_bkg, detcat=det, lbw=lbw)
         rd = rows_of(cat_d, has_err, has_bkg); rdet = rows_of(det, has_err, has_bkg)
         pick = lambda rs, keys: [json.dumps({k: r[k] for k in keys}, sort_keys=True) for r in rs]  # noqa
         pair('detection_catalog_supplies_shape_and_position', pick(rd, ['label', 'moments', 'xcen_k', 'ycen_k', 'bbox', 'segment_area']), pick(rdet, ['label', 'moments', 'xcen_k', 'ycen_k', 'bbox', 'segment_area']))
-        pair('measurement_image_supplies_fluxes', pick(rd, ['label', 'flux_nan', 'min_k', 'max_k'] + (['flux_k'] if lbw == 0 else [])), pick(rows, ['label', 'flux_nan', 'min_k', 'max_k'] + (['flux_k'] if lbw == 0 else [])))
+        pair('measurement_image_supplies_fluxes', pick(rd, ['label', 'flux_nan', 'min_k', 'max_k', 'flux_k']), pick(rows, ['label', 'flux_nan', 'min_k', 'max_k', 'flux_k']))
     return out
 
 
